@@ -286,11 +286,27 @@ impl WalRecuperator {
         Ok(())
     }
 
+    /// A loser may have written to a table that does not exist (any more) when undo runs: it
+    /// created the table itself and that never reached the data file, or a committed
+    /// transaction dropped the table in the meantime. There is nothing to roll back then.
+    fn table_exists(&self, table_id: crate::types::ObjectId) -> bool {
+        let builder = self.dml_executor.ctx().tree_builder();
+        let snapshot = self.dml_executor.ctx().snapshot();
+        self.dml_executor
+            .ctx()
+            .catalog()
+            .get_relation(table_id, &builder, &snapshot)
+            .is_ok()
+    }
+
     // DML Undo operations
     fn undo_delete(&mut self, delete_op: &Delete) -> RuntimeResult<()> {
         let table_id = delete_op
             .object_id()
             .expect("Table id must be set for DML logs");
+        if !self.table_exists(table_id) {
+            return Ok(());
+        }
 
         let builder = self.dml_executor.ctx().tree_builder();
         let snapshot = self.dml_executor.ctx().snapshot();
@@ -316,6 +332,9 @@ impl WalRecuperator {
         let table_id = update_op
             .object_id()
             .expect("Table id must be set for DML logs");
+        if !self.table_exists(table_id) {
+            return Ok(());
+        }
         let row_id = update_op
             .row_id()
             .map(|r| UInt64::from(r))
@@ -349,6 +368,9 @@ impl WalRecuperator {
         let table_id = insert_op
             .object_id()
             .expect("Table id must be set for DML logs");
+        if !self.table_exists(table_id) {
+            return Ok(());
+        }
         let row_id = insert_op
             .row_id()
             .map(|r| UInt64::from(r))
